@@ -11,7 +11,7 @@
    check, inside the kernel, that the set of runes Validate admits is included in
    accepted-by-the-encoder U known-bad: one new bad code point breaks them. *)
 From V Require Import Model.Base Model.IntervalMap Gen.Charsets Model.Charset Model.Splitter Model.Compose
-  Gen.Detect Gen.KnownBad Model.Detect Model.ComposePipeline Proofs.DetectProofs Proofs.ComposePipeline.
+  Gen.Detect Gen.KnownBad Model.Detect Model.ComposePipeline Proofs.DetectProofs Proofs.ComposePipeline Proofs.PipelineFull.
 Open Scope N_scope.
 
 (* FULL STATEMENT (false of the code, see the _refuted theorems below):
@@ -143,3 +143,79 @@ Example C09_examples :
   decode_l LGsm7 (hx "e8329bfdde941b") = Ok [104; 101; 108; 108; 111; 8364] /\
   compose [1046; 97] = Ok (6, [182; 97]) /\ parse (6, [182; 97]) = Ok [1046; 97].
 Proof. vm_compute. repeat split; reflexivity. Qed.
+
+(* ---- the pipeline, COMPLETE (round 7, builder textproof): C09_pipeline / C09_pipeline_safe without _partial ----
+   For every text of scalar values free of the committed known-bad runes of the detected coding, any reference:
+   ComposeMultipartShortMessage(text, BestCoding(text), ref)
+     - never panics;
+     - is refused ONLY with ErrMultipartTooMuch (ECount), and then the text does not fit one message and the splitter
+       really cuts it into more than 254 segments - never for size (ESize: no part can exceed 140 octets when the coding
+       is the detected one), never by divergence of Split (EFuel), never for lack of an encoding (EText), never otherwise;
+     - on success returns 1..254 parts of at most 140 octets (header + payload) whose payloads are the encodings of
+       consecutive pieces of the text that join to it, and each payload decodes back (same coding) to its piece
+       (GSM 7-bit: unless that piece is in the 8k-septets-ending-in-CR class, C09_gsm7_cr_refuted).
+   The two statements that were missing in C09_pipeline_partial:
+     e <> ESize  from C09_width_tables (for each of the 8 labels the detector can return, every run of the encoder's
+                 accept table against the splitter width table of Gen/Detect.v: 8 * octets <= bits charged, GSM 7-bit
+                 7 * septets <= bits charged; run-wise in the kernel), the packed length of GSM 7-bit text and the
+                 splitter's limit theorem (C07_split_fits);
+     e <> EFuel  no width table charges more than 32 bits per character.
+   ISO-2022-JP (where width soundness is refuted, C07_width_sound_iso2022jp_refuted, and the size check does refuse) and
+   EUC-JP are never returned by either detector: C09_detector_never_stateful. *)
+Theorem C09_pipeline : forall ref rs, Forall scalar rs ->
+  (forall r, In r rs -> mem r (known_bad_of (best rs)) = false) ->
+  pipeline ref rs <> Panic /\
+  (forall e, pipeline ref rs = Err e ->
+     e = ECount /\ (140 < text_len (w_label (best rs)) rs)%nat /\
+     exists segs, split (w_label (best rs)) (140 - 1 - hdr_len ref) rs = Ok segs /\ (254 < List.length segs)%nat) /\
+  (forall parts, pipeline ref rs = Ok parts ->
+     (1 <= List.length parts <= 254)%nat /\
+     Forall (fun pt => (udh_len (pt_udh pt) + List.length (pt_payload pt) <= 140)%nat) parts /\
+     exists segs, List.concat segs = rs /\
+       Forall2 (fun pt s => encode_l (best rs) s = Ok (pt_payload pt) /\
+                            ((best rs = LGsm7 -> g7_clear s) -> decode_l (best rs) (pt_payload pt) = Ok s)) parts segs).
+Proof. exact pipeline_full. Qed.
+Theorem C09_pipeline_safe : forall ref rs, Forall scalar rs ->
+  pipeline_safe ref rs <> Panic /\
+  (forall e, pipeline_safe ref rs = Err e ->
+     e = ECount /\ (140 < text_len (w_label (best_safe rs)) rs)%nat /\
+     exists segs, split (w_label (best_safe rs)) (140 - 1 - hdr_len ref) rs = Ok segs /\ (254 < List.length segs)%nat) /\
+  (forall parts, pipeline_safe ref rs = Ok parts ->
+     (1 <= List.length parts <= 254)%nat /\
+     Forall (fun pt => (udh_len (pt_udh pt) + List.length (pt_payload pt) <= 140)%nat) parts /\
+     exists segs, List.concat segs = rs /\
+       Forall2 (fun pt s => encode_l (best_safe rs) s = Ok (pt_payload pt) /\
+                            ((best_safe rs = LGsm7 -> g7_clear s) -> decode_l (best_safe rs) (pt_payload pt) = Ok s)) parts segs).
+Proof. exact pipeline_safe_full. Qed.
+
+(* the detectors' candidates are GSM 7-bit, ASCII, Latin-1, Cyrillic, Hebrew, Shift-JIS, EUC-KR, UCS-2: never the
+   stateful ISO-2022-JP, never EUC-JP *)
+Theorem C09_detector_never_stateful : forall rs,
+  best rs <> LCs CIso2022jp /\ best rs <> LCs CEucjp /\ best_safe rs <> LCs CIso2022jp /\ best_safe rs <> LCs CEucjp.
+Proof. exact detector_never_stateful. Qed.
+
+(* width soundness between the encoder tables and the splitter width tables, every label a detector can return:
+   a character the encoder accepts is charged at least the bits it occupies (need_of: 8 per octet; GSM 7-bit 7 per septet) *)
+Theorem C09_width_tables : forall l, detectable l ->
+  forall r n x, lookup r (acc_runs l) = Some (n, x) -> need_of l n <= width l r.
+Proof. exact (fun l Hd => width_check_sound l (width_check_detectable l Hd)). Qed.
+(* hence Splitter.Len bounds the encoder's output for every text, and neither the size check nor the divergence of Split
+   is reachable with a detectable coding *)
+Theorem C09_len_bounds_encoder : forall l, detectable l -> forall s p, encode_l l s = Ok p ->
+  (List.length p <= text_len (w_label l) s)%nat.
+Proof. exact encode_l_len_sound. Qed.
+Theorem C09_pipeline_no_size_refusal : forall l ref rs, detectable l ->
+  compose_label l ref rs <> Err ESize /\ compose_label l ref rs <> Err EFuel.
+Proof. exact (fun l ref rs Hd => conj (compose_label_no_esize l ref rs Hd) (compose_label_no_efuel l ref rs)). Qed.
+
+(* audit item A/B4: what a successful Compose of ONE short message stores is at most 140 octets *)
+Theorem C09_compose_fits : forall rs dc bs, compose rs = Ok (dc, bs) -> (List.length bs <= 140)%nat.
+Proof. exact compose_stores_at_most_140. Qed.
+
+(* non-vacuity: 300 x U+65E5 is labelled Shift-JIS and composed into 5 parts; 40000 x 'a' (GSM 7-bit) and 40000 x U+0416
+   through BestSafeCoding (UCS-2) are refused for the number of parts *)
+Example C09_pipeline_examples :
+  parts_count (pipeline 7 (rept 300 [26085])) = Some 5%nat /\
+  pipeline 7 (rept 40000 [97]) = Err ECount /\
+  pipeline_safe 300 (rept 40000 [1046]) = Err ECount.
+Proof. exact pipeline_examples. Qed.
